@@ -69,6 +69,8 @@ def run(ck, tier):
     _infl.run(ck, F, 'C03')
     from . import mustpass as _mp
     _mp.run(ck, F, 'C03')
+    from . import c03x
+    c03x.run(ck, F)
     from . import accum as _acc
     _acc.run(ck, F, 'C03')
     run_masks(ck, F)
